@@ -408,7 +408,7 @@ def _shifts_for(onesided):
 def _enumerate(tier, seed):
     _common.use_repo()
     banks = list(BANKS_QUICK) + (list(BANKS_EXTRA) if tier == "thorough" else list(BANKS_EXTRA[:3]))
-    nvar = 4 if tier == "quick" else 16
+    nvar = 4 if tier == "quick" else 30
     dts_cycle = ["float64", "float32"]
     for var in range(nvar):
         for bi, spec in enumerate(banks):
@@ -554,10 +554,20 @@ def replay(case: dict):
     _common.use_repo()
     case = dict(case)
     case.pop("clause", None)
+    # defaults so that a case built from a solver model (a few integers) can be replayed
+    case.setdefault("bank", BANKS_QUICK[0])
+    case.setdefault("frame_style", "causal")
+    case.setdefault("pad", True)
+    case.setdefault("frame_shift", 10)
+    case.setdefault("use_log", False)
+    case.setdefault("use_power", True)
+    case.setdefault("include_energy", True)
+    case.setdefault("seed", 0)
     case.setdefault("window", "default")
     case.setdefault("window_seed", case.get("seed", 0))
     case.setdefault("dtype", "float64")
     case.setdefault("amp", 1.0)
+    case.setdefault("N", 200)
     ctx = _Ctx()
     fails, info = _check_case(case, ctx)
     if fails:
